@@ -21,7 +21,7 @@ func init() {
 		ID:          "C18",
 		Technique:   "complete enumeration of the dial configuration matrix on the real Dialer against in-process HTTP/HTTPS CONNECT proxies, a SOCKS5 server and TLS back-ends (deterministic synchronous pipes); every peer logs what it saw",
 		Rule:        "cells = {no proxy, http, https, socks5} x {ws, wss} x {subsets of NetDial / NetDialContext / NetDialTLSContext that do not need the real network} x {proxy credentials none | user | user:password} x {backend certificate valid | other host | untrusted CA} x {URL host: name, name:port, IPv4, [::1], [::1]:port} x {proxy replies 200, 200 without reason, 407 with/without reason, 502, garbage, EOF}; complete product (irrelevant combinations collapsed). non-trivial = at least one hook dial and a non-default cell; distinct by observation hash",
-		Assumptions: []string{"cells in which neither NetDial nor NetDialContext is set and the first hop is plain TCP need the real network and are not enumerated", "SOCKS5 with a user name but no password is a don't-care (x/net refuses it)", "crypto/tls and x/net/proxy are trusted"},
+		Assumptions: []string{"cells without any dial hook use the default net.Dialer: they are enumerated on real loopback TCP listeners (family loopback); the in-memory family covers every combination of hooks", "SOCKS5 with a user name but no password is a don't-care (x/net refuses it)", "crypto/tls and x/net/proxy are trusted"},
 		Budget:      map[string]time.Duration{"quick": 100 * time.Second, "thorough": 15 * time.Minute},
 		Bound:       map[string]string{"quick": "complete product", "thorough": "complete product (same cells; thorough adds nothing here)"},
 		Scenarios:   c18Scenarios,
@@ -42,7 +42,72 @@ func c18Scenarios(tier string) []*explore.Scenario {
 			}
 		}
 	}
+	for _, ps := range []string{"", "http", "https", "socks5"} {
+		for _, secure := range []bool{false, true} {
+			ps, secure := ps, secure
+			scs = append(scs, &explore.Scenario{Name: fmt.Sprintf("c18/loopback/proxy=%s/secure=%v", ps, secure), Bound: 0, Body: func(x *explore.Ctx) { c18Loopback(x, ps, secure) }})
+		}
+	}
 	return scs
+}
+
+// c18Loopback: the cells without any dial hook (default net.Dialer) on real loopback TCP.
+func c18Loopback(x *explore.Ctx, proxyScheme string, secure bool) {
+	o := backendOpts{}
+	if proxyScheme != "" {
+		o.creds = []string{"", "user", "user:pa:ss"}[x.Pick(3, "proxy-credentials")]
+	}
+	certKind := 0
+	if secure {
+		certKind = x.Pick(3, "backend-certificate")
+		switch certKind {
+		case 1:
+			o.certHost = "other.example"
+		case 2:
+			o.untrusted = true
+		}
+	}
+	if strings.HasPrefix(proxyScheme, "http") {
+		o.proxyResp = []string{"", "407 Proxy Authentication Required", "407"}[x.Pick(3, "proxy-reply")]
+	}
+	n := newSimNet()
+	d, urlStr, backendAddr := n.setupLoopback(proxyScheme, secure, o)
+	d.HandshakeTimeout = 10 * time.Second
+	conn, _, err := d.Dial(urlStr, nil)
+	if conn != nil {
+		conn.Close()
+	}
+	n.Finish()
+	x.NonTrivial()
+	log := n.Log.Snapshot()
+	// ports differ from run to run: observations are normalised
+	norm := strings.NewReplacer(backendAddr, "BACKEND").Replace(fmt.Sprint(log))
+	x.Obs("proxy=%s secure=%v creds=%q cert=%d reply=%q -> ok=%v peers=%s", proxyScheme, secure, o.creds, certKind, o.proxyResp, conn != nil, norm)
+	x.Logf("err=%v", err)
+	key := func(what string) string {
+		return fmt.Sprintf("C18:loopback-%s:proxy=%s:secure=%v", what, proxyScheme, secure)
+	}
+	socksUserOnly := proxyScheme == "socks5" && o.creds == "user"
+	if socksUserOnly {
+		return
+	}
+	wantOK := certKind == 0 && o.proxyResp == ""
+	x.Check((conn != nil) == wantOK, key("outcome"), "dial result ok=%v (err %v), want ok=%v (peers %v)", conn != nil, err, wantOK, log)
+	x.Check(!n.Log.Has("net: BACKEND-DIALED-DIRECTLY"), key("proxy-bypassed"), "backend dialed directly although a proxy is configured")
+	switch proxyScheme {
+	case "http", "https":
+		x.Check(n.Log.Count("proxy: request ") == 1 && n.Log.Has("proxy: request CONNECT "+backendAddr+" HTTP/1.1"), key("connect-request"), "proxy saw %v, want one CONNECT %s", filter(log, "proxy: request"), backendAddr)
+		_, _, has := strings.Cut(o.creds, ":")
+		x.Check((n.Log.Count("proxy: proxy-authorization") == 1) == has, key("proxy-auth"), "Proxy-Authorization %v with credentials %q", filter(log, "proxy: proxy-authorization"), o.creds)
+	case "socks5":
+		x.Check(n.Log.Has("proxy: connect cmd=1 "+backendAddr), key("socks-connect"), "SOCKS5 server saw %v", filter(log, "proxy: connect"))
+	}
+	if secure {
+		x.Check(!n.Log.Has("backend: PLAINTEXT-ON-TLS-PORT"), key("plaintext-to-wss"), "backend of a wss URL received plaintext first")
+		if certKind != 0 {
+			x.Check(!n.Log.Has("backend: ws-request"), key("request-sent-unverified"), "WebSocket request sent although the backend certificate does not verify")
+		}
+	}
 }
 
 func c18Body(x *explore.Ctx, pi int, secure bool, hi int) {
